@@ -5,6 +5,7 @@ import (
 	"errors"
 	"fmt"
 	"math/big"
+	"sort"
 	"testing"
 
 	agglayertypes "github.com/agglayer/aggkit/agglayer/types"
@@ -150,6 +151,31 @@ func (l c17Layout) size(t uint64, ct types.CertificateType) uint {
 	return (&types.CertificateBuildParams{FromBlock: l.From, ToBlock: t, Bridges: b, Claims: c, CertificateType: ct}).EstimatedSize()
 }
 
+// cutPoints: the block numbers at which the size of a prefix can change, in increasing order: the first block, the block
+// before every event block, the event blocks, the last block. The size is constant between two of them, so the largest
+// permitted last block is one of them (this keeps the specification usable for ranges of billions of event-less blocks).
+func (l c17Layout) cutPoints() []uint64 {
+	set := map[uint64]bool{l.From: true, l.To: true}
+	add := func(n uint64) {
+		if n > l.From && n <= l.To {
+			set[n-1] = true
+			set[n] = true
+		}
+	}
+	for _, x := range l.Bridges {
+		add(x.BlockNum)
+	}
+	for _, x := range l.Claims {
+		add(x.BlockNum)
+	}
+	var out []uint64
+	for n := range set {
+		out = append(out, n)
+	}
+	sort.Slice(out, func(i, j int) bool { return out[i] < out[j] })
+	return out
+}
+
 func eventBlocksBetween(l c17Layout, lo, hi uint64) int { // blocks in (lo, hi] that bear events
 	seen := map[uint64]bool{}
 	for _, x := range l.Bridges {
@@ -168,6 +194,26 @@ func eventBlocksBetween(l c17Layout, lo, hi uint64) int { // blocks in (lo, hi] 
 func c17SizeLimit(rt *rapid.T, rec *ev.Recorder) {
 	l := c17GenLayout(rt)
 	ct := rapid.SampledFrom([]types.CertificateType{types.CertificateTypePP, types.CertificateTypeFEP}).Draw(rt, "certType")
+	far := rapid.IntRange(0, 9).Draw(rt, "farApartBlocks") == 0 && len(l.Bridges)+len(l.Claims) >= 2
+	if far {
+		// a range of billions of blocks with events only in its first and last block (a chain that was quiet for a very long
+		// time): the events of the generated layout's later blocks all move to the last block. The limit is chosen so that
+		// everything but the last block fits (the code under test shrinks one block at a time).
+		span := rapid.SampledFrom([]uint64{1 << 32, 1<<32 + 1, 1<<32 - 1, 1 << 33, 3 << 31}).Draw(rt, "span")
+		last := l.From + span
+		for i := range l.Bridges {
+			if l.Bridges[i].BlockNum != l.From {
+				l.Bridges[i].BlockNum = last
+			}
+		}
+		for i := range l.Claims {
+			if l.Claims[i].BlockNum != l.From {
+				l.Claims[i].BlockNum = last
+			}
+		}
+		l.To = last
+		l.Desc += fmt.Sprintf("(first and last block %d apart)", span)
+	}
 	// limit: 0, tiny, around a prefix size +-1, huge
 	var limit uint
 	switch rapid.IntRange(0, 5).Draw(rt, "limitKind") {
@@ -185,7 +231,17 @@ func c17SizeLimit(rt *rapid.T, rec *ev.Recorder) {
 		}
 		limit = uint(s)
 	}
+	if far {
+		if a, b := l.size(l.To-1, ct), l.size(l.To, ct); b > a {
+			limit = a + uint(rapid.IntRange(0, int(b-a-1)).Draw(rt, "farLimit"))
+		} else {
+			limit = 0 // the last block holds nothing: no cut needed
+		}
+	}
 	prev := rapid.IntRange(0, 2).Draw(rt, "prevState") // 0 none, 1 settled, 2 in error (retry)
+	if far && prev == 2 {
+		prev = 1 // (the retry case draws a block inside the range)
+	}
 	var last *types.CertificateHeader
 	startL2 := uint64(0)
 	switch prev {
@@ -208,19 +264,20 @@ func c17SizeLimit(rt *rapid.T, rec *ev.Recorder) {
 		want := l.To
 		if limit != 0 {
 			want = l.From
-			for t := l.To; t >= l.From; t-- {
-				if l.size(t, ct) <= limit {
-					want = t
+			pts := l.cutPoints()
+			for i := len(pts) - 1; i >= 0; i-- {
+				if l.size(pts[i], ct) <= limit {
+					want = pts[i]
 					break
 				}
 			}
 		}
 		// monotonicity of the size estimate in the prefix (the cut relies on it)
 		var prevSize uint
-		for t := l.From; t <= l.To; t++ {
+		for _, t := range l.cutPoints() {
 			s := l.size(t, ct)
 			if s < prevSize {
-				rt.Fatalf("EstimatedSize not monotone in the prefix: size(<=%d)=%d < size(<=%d)=%d", t, s, t-1, prevSize)
+				rt.Fatalf("EstimatedSize not monotone in the prefix: size(<=%d)=%d is below the size of a shorter prefix (%d)", t, s, prevSize)
 			}
 			prevSize = s
 		}
@@ -241,7 +298,7 @@ func c17SizeLimit(rt *rapid.T, rec *ev.Recorder) {
 		return want
 	}
 	want := judge(l, got)
-	if limit != 0 && rapid.IntRange(0, 2).Draw(rt, "sameFlowObjectAgain") == 0 {
+	if limit != 0 && !far && rapid.IntRange(0, 2).Draw(rt, "sameFlowObjectAgain") == 0 {
 		// the same flow object is asked again for the same block range holding other events (what it sees after the L2
 		// syncer re-synced a reorged range up to the same tip): cutting is a function of the events it is given
 		l2 := c17GenLayout(rt)
